@@ -1,6 +1,7 @@
 CONSTANTS
   NQ = 2
-  Confs = {1, 2}
+  Confs = {1, 2, 3}
+  FirstConfs = {2}
   Spans <- SpansSmall
   MaxDiff = 1
   MaxSecond = 2
